@@ -9,6 +9,7 @@
 mod checks;
 mod fv;
 mod gen;
+mod pool;
 mod refs;
 mod selftest;
 mod util;
